@@ -65,6 +65,18 @@ impl Ty {
     pub fn is_union(&self) -> bool {
         matches!(self, Ty::Union(_))
     }
+    /// does `!` occur anywhere inside the type?
+    pub fn contains_never(&self) -> bool {
+        match self {
+            Ty::Never => true,
+            Ty::Arr(e) | Ty::Mut(e) => e.contains_never(),
+            Ty::Tup(ts) => ts.iter().any(Ty::contains_never),
+            Ty::Fun(ps, r) => ps.iter().any(Ty::contains_never) || r.contains_never(),
+            Ty::Struct(fs) => fs.values().any(Ty::contains_never),
+            Ty::Union(ms) => ms.iter().any(Ty::contains_never),
+            _ => false,
+        }
+    }
     pub fn depth(&self) -> usize {
         match self {
             Ty::Arr(e) | Ty::Mut(e) => 1 + e.depth(),
